@@ -64,9 +64,9 @@ fn uf(data: &[u8]) -> Result<bool, String> {
       .chunks_exact(3)
       .take(80)
       .map(|c| match c[0] % 5 {
-         0 => UfOp::Add(c[1] % 10),
-         1 => UfOp::FindItem(c[1] % 12),
-         2 => UfOp::UnionAdd(c[1] % 10, c[2] % 10),
+         0 => UfOp::Add(c[1] % 24),
+         1 => UfOp::FindItem(c[1] % 26),
+         2 => UfOp::UnionAdd(c[1] % 24, c[2] % 24),
          3 => UfOp::UnionIds(c[1], c[2]),
          _ => UfOp::FindId(c[1]),
       })
@@ -74,7 +74,8 @@ fn uf(data: &[u8]) -> Result<bool, String> {
    if ops.is_empty() {
       return Ok(false);
    }
-   crate::c18::check_uf(&ops)
+   // first byte of the tail decides whether the partition is compared after every step or only at the end
+   crate::c18::check_uf_mode(&ops, data.len() % 2 == 0)
 }
 
 fn index(data: &[u8]) -> Result<bool, String> {
